@@ -308,21 +308,21 @@ func (d *Decoder) readObject(typ reflect.Type, cls ClassDef) (interface{}, error
 
 		// fmt.Printf("[%d]  >>>> start read field %s: %v, %v, %p\n", readObjectIndexCurr, fldName, vv.Type(), vv.Interface(), vv.Interface())
 		if err != nil {
-			hlog.Debugf("%s is not found, will skip type ->p %v", fldName, typ)
+			hlog.Debugf("%s is not found, will skip type ->p %v", clipName(fldName), typ)
 			// the value of the unknown field is on the wire all the same: read it and drop it
 			if _, err := d.ReadData(); err != nil {
-				return nil, newCodecError("readObject", "failed to skip unknown field '%s'", fldName, err)
+				return nil, newCodecError("readObject", "failed to skip unknown field '%s'", clipName(fldName), err)
 			}
 			continue
 		}
 		fldValue := st.Field(index)
 		if !fldValue.CanSet() {
-			return nil, newCodecError("readObject", "field %s can set", fldName)
+			return nil, newCodecError("readObject", "field %s can set", clipName(fldName))
 		}
 
 		err = d.readField(fldName, fldValue)
 		if err != nil {
-			return nil, newCodecError("readObject", "failed to decode field '%s'", fldName, err)
+			return nil, newCodecError("readObject", "failed to decode field '%s'", clipName(fldName), err)
 		}
 
 		// fmt.Printf("[%d]  <<<<<< end read field %s: %v, %v, %p\n", readObjectIndexCurr, fldName, vv.Type(), vv.Interface(), vv.Interface())
@@ -414,4 +414,13 @@ func (d *Decoder) readField(fldName string, fldValue reflect.Value) error {
 	}
 
 	return nil
+}
+
+// clipName shortens a name taken from the wire for use in a message: the error of a failing field is wrapped once
+// per enclosing object, so n nested objects with a field name of n octets would cost n*n octets of messages
+func clipName(name string) string {
+	if len(name) > 64 {
+		return name[:64] + "..."
+	}
+	return name
 }
